@@ -570,7 +570,8 @@ def finish(ctx: Ctx) -> int:
     n_viol = 0
     listed = []
     for v in ctx.violations:
-        kf = next((k for k in known if k["key"] == v.key), None)
+        kf = next((k for k in known if k["key"] == v.key
+                   or (k["key"].endswith(":*") and v.key.startswith(k["key"][:-1]))), None)
         if kf is not None:
             print(f"KNOWN-FINDING: property={ctx.prop} {kf['what']}")
             listed.append(v.key)
